@@ -1,6 +1,7 @@
 import HappyProofs.C19.Assign
 import HappyProofs.C19.MQAccount
 import HappyProofs.C19.MQAck
+import HappyProofs.C19.MQAckFinal
 import HappyProofs.C19.MQOrder
 import HappyProofs.C19.MQLimit
 import HappyProofs.C19.MQReach
@@ -71,6 +72,20 @@ theorem redelivery_limit_to_dlq (cfg : Cfg) (hl : cfg.legacy = false) (sched : L
 theorem no_delivery_after_ack (cfg : Cfg) (hl : cfg.legacy = false) (sched : List (Nat × Act)) :
     jAck {} (MQ.run cfg {} sched) = none :=
   HappyModel.C19.no_delivery_after_ack cfg hl sched
+
+/-- the consumer's call is what counts: once `acknowledge(k)` was called for a published message — while
+    in flight, while back in the pending queue after a visibility timeout (late ack, before the
+    redelivery event fires), after a reject/requeue, or after dead-lettering — no delivery of `k` starts -/
+theorem ack_is_final (cfg : Cfg) (hl : cfg.legacy = false) (sched : List (Nat × Act)) :
+    jAckFinal {} (MQ.run cfg {} sched) = none :=
+  HappyModel.C19.ack_is_final cfg hl sched
+
+/-- and the message stays accounted for: acknowledging a message the queue still owes (published, never
+    acknowledged, not dead-lettered) moves the acknowledged counter by exactly one, any other call by zero -/
+theorem ack_of_owed_message_takes_effect (cfg : Cfg) (hl : cfg.legacy = false)
+    (sched : List (Nat × Act)) :
+    jAckTakes {} (MQ.run cfg {} sched) = none :=
+  HappyModel.C19.ack_of_owed_message_takes_effect cfg hl sched
 
 /-- every delivery picks a subscribed consumer, is not stamped in the past, and is received by that
     consumer exactly once at t0 + latency; at a quiescent end nothing is missing -/
